@@ -298,6 +298,15 @@ def case_round(ctx, cfg):
                 if e is not None or not proj_eq(ce.array, np.array([c[0], c[1], 1.0]), 1e-8):
                     ctx.fail("circle:center", "center", inputs, [c[0], c[1], 1], e if e is not None else ce.array)
                     return
+                # a circle derived from this one (after its centre / foci were read) has its own centre and radius
+                for how, cd in (("translated", G.translation(3, -1) * ci), ("plus-point", ci + G.Point(3, -1))):
+                    ce2, e = ctx.call(lambda: cd.center)
+                    r2, e2 = ctx.call(lambda: cd.radius)
+                    fo2, e3 = ctx.call(lambda: cd.foci)
+                    ctx.trace(3)
+                    if e or e2 or e3 or not proj_eq(ce2.array, np.array([c[0] + 3, c[1] - 1, 1.0]), 1e-8) or not num_eq(r2, r, 1e-9, 1e-9) or not proj_eq(fo2[0].array, np.array([c[0] + 3, c[1] - 1, 1.0]), 1e-7):
+                        ctx.fail(f"circle:derived-after-queries:{how}", "center / radius / foci", inputs, [c[0] + 3, c[1] - 1, 1], e or e2 or e3 or [ce2.array, r2])
+                        return
     elif kind == "ellipse":
         for a, b in itertools.product(RADII, repeat=2):
             el, e = ctx.call(G.Ellipse, G.Point(*c), a, b)
